@@ -65,6 +65,7 @@ impl StringAdapter {
 #[async_trait]
 impl Adapter for StringAdapter {
     async fn load_policy(&mut self, m: &mut dyn Model) -> Result<()> {
+        self.is_filtered = false;
         let policies = self.policy.split("\n");
         for line in policies {
             load_policy_line(line, m);
@@ -77,24 +78,31 @@ impl Adapter for StringAdapter {
         m: &mut dyn Model,
         f: Filter<'a>,
     ) -> Result<()> {
+        self.is_filtered = false;
         let policies = self.policy.split("\n");
         for line in policies {
             if let Some(tokens) = parse_csv_line(line) {
-                let sec = &tokens[0];
-                let ptype = &tokens[1];
-                let rule = tokens[1..].to_vec().clone();
+                // a line is `ptype, field, field, ...`; the section is the
+                // first letter of the policy type
+                let ptype = &tokens[0];
+                let sec = &ptype.chars().take(1).collect::<String>();
+                let rule = tokens[1..].to_vec();
                 let mut is_filtered = false;
 
                 if sec == "p" {
                     for (i, r) in f.p.iter().enumerate() {
-                        if !r.is_empty() && r != &rule[i + 1] {
+                        if !r.is_empty()
+                            && rule.get(i).map(|x| x.as_str()) != Some(*r)
+                        {
                             is_filtered = true;
                         }
                     }
                 }
                 if sec == "g" {
                     for (i, r) in f.g.iter().enumerate() {
-                        if !r.is_empty() && r != &rule[i + 1] {
+                        if !r.is_empty()
+                            && rule.get(i).map(|x| x.as_str()) != Some(*r)
+                        {
                             is_filtered = true;
                         }
                     }
